@@ -343,7 +343,18 @@ class TileWalker(object):
         :param all_subtiles: seed all subtiles and do not check for
                              intersections with bbox/geom
         """
-        bbox_, tiles, subtiles = self.grid.get_affected_level_tiles(cur_bbox, current_level)
+        # get_affected_level_tiles ignores 1/10 pixel *of the current level* along the border of
+        # the bbox, so that tiles we only touch are skipped. Tiles of the finer levels that lie
+        # within that border (e.g. a 5km wide strip for level 1 of the global webmercator grid)
+        # would never be reached. Extend the bbox, so that effectively only 1/10 pixel of the
+        # last level to seed is ignored.
+        resolutions = self.tile_mgr.grid.resolutions
+        pad = (resolutions[current_level] - resolutions[self.task.levels[-1]]) / 10.0
+        if pad > 0:
+            affected_bbox = (cur_bbox[0] - pad, cur_bbox[1] - pad, cur_bbox[2] + pad, cur_bbox[3] + pad)
+        else:
+            affected_bbox = cur_bbox
+        bbox_, tiles, subtiles = self.grid.get_affected_level_tiles(affected_bbox, current_level)
         total_subtiles = tiles[0] * tiles[1]
         if len(levels) < self.skip_geoms_for_last_levels:
             # do not filter in last levels
